@@ -6,7 +6,7 @@
     tzl.loc   <dump> ℓ1,ℓ2,…        -> s<off> | a<off1>/<off2> | n        (lookup by wall clock)
     tzl.cache <dump> u<t>|l<ℓ>,…    -> s<off> | a<o1>/<o2> | n | panic    (Cache::offset glue)
     tzl.wall  <dump> ℓ1,ℓ2,…        -> instants of Spec.wallSet separated by `/` (or `-`)
-    tzl.sep   <dump>                -> 1 | 0   (Spec.WellSeparated, transition table part)
+    tzl.sep   <dump>                -> 1 | 0   (Spec.Zone.zoneSeparatedB = WellSeparated ∧ JoinSeparated)
 -/
 import Chrono.Drv.Util
 import Chrono.Model.TzLookup
@@ -146,7 +146,7 @@ def handle (op : String) (args : List String) : Option String :=
             if w.isEmpty then "-" else "/".intercalate (w.map toString)))
   | "tzl.sep", [a, b, c, d] => some (match parseZone a b c d with
       | none => bad
-      | some z => showBool (Spec.Zone.wellSeparatedB z))
+      | some z => showBool (Spec.Zone.zoneSeparatedB z))
   | "tzl.dump", [a, b, c, d] => some (match parseZone a b c d with
       | none => bad
       | some z => z.dump)
